@@ -179,3 +179,25 @@ Definition holds_flist (c : lcase) : bool :=
              end
       end
   end.
+
+(* ---------------------------------------------------------------- lin: linearize *)
+(* n_tn / n_td = list(f.numpoly.terms()) / list(f.denpoly.terms()) of the filter f (fractional powers),
+   n_filt = the (numerator, denominator) items of f.linearize() *)
+Record ncase := NC { n_tn : fterms; n_td : fterms; n_filt : res (poly * poly) }.
+Definition corr_lin (c : ncase) : bool :=
+  res_eqb frac_lit_eqb (n_filt c) (rmap pair_of (flinearize (n_tn c) (n_td c))).
+(* the text only says that a filter object results; what "linear interpolation" certainly means is
+   checked as well: gain at z = 1 is kept (cross-multiplied, so that the constructor's shift does not matter) *)
+Definition mom (p : poly) : Qc := dot p zq.                    (* first moment: sum_k k p_k *)
+Definition holds_lin (c : ncase) : bool :=
+  match n_filt c with
+  | Ok nd =>
+      let n1 := dc (fst nd) in let d1 := dc (snd nd) in
+      let n0 := fdot (n_tn c) (fun _ => 1) in let d0 := fdot (n_td c) (fun _ => 1) in
+      (* the delay at z = 1 relative to the gain, M n / n(1) - M d / d(1), cross-multiplied; it does not
+         change when numerator and denominator are shifted together *)
+      let a1 := mom (fst nd) * d1 - mom (snd nd) * n1 in
+      let a0 := fdot (n_tn c) (fun k => k) * d0 - fdot (n_td c) (fun k => k) * n0 in
+      obs_okb nd && Qc_eqb (n1 * d0) (n0 * d1) && Qc_eqb (a1 * (n0 * d0)) (a0 * (n1 * d1))
+  | Raise _ => true
+  end.
